@@ -109,16 +109,17 @@ inductive Cmd where
   | lockAsync (i : Nat)   -- Lock started in the background: first attempt now, then blocked
   | join (i : Nat)        -- wait for the background Lock: it retries now, else runs into its deadline
   | observe (i : Nat)     -- read the context returned to client i
+  | cancelCtx (i : Nat)   -- the context that was passed to client i's Lock/TryLock is cancelled or times out
   deriving Repr
 
 inductive Res where
-  | acquired | notObtained | released | notHeld | blocked | advanced | misuse | ctxLive | ctxCancelled | ctxNone
+  | acquired | notObtained | released | notHeld | blocked | advanced | misuse | ctxLive | ctxCancelled | ctxNone | done
   deriving Repr, DecidableEq
 
 def Res.str : Res → String
   | .acquired => "acquired" | .notObtained => "not-obtained" | .released => "released"
   | .notHeld => "not-held" | .blocked => "blocked" | .advanced => "advanced" | .misuse => "misuse"
-  | .ctxLive => "ctx-live" | .ctxCancelled => "ctx-cancelled" | .ctxNone => "ctx-none"
+  | .ctxLive => "ctx-live" | .ctxCancelled => "ctx-cancelled" | .ctxNone => "ctx-none" | .done => "done"
 
 def phaseRes (s : State) (i : Nat) : Res :=
   match s.cl i with
@@ -168,6 +169,8 @@ def exec (p : Params) (s : State) : Cmd → State × Res
       | .holding _ => if s.ctxCancelled i then .ctxCancelled else .ctxLive
       | .done _ => if s.ctxCancelled i then .ctxCancelled else .ctxLive
       | _ => .ctxNone)
+  -- the acquiring context only bounds the Obtain call: once the lock is held its end releases nothing
+  | .cancelCtx _ => (s, .done)
 
 def replay (p : Params) : State → List Cmd → List Res
   | _, [] => []
